@@ -357,6 +357,9 @@ pub struct HandleCase {
     pub free_list: FreeList,
     /// handles to one shared value every thread starts with (pre-cloned by the harness)
     pub shared_start: bool,
+    /// pool slots the harness occupies before the threads start (7 of 8: a value created by one thread re-uses the slot another thread has just released)
+    #[serde(default)]
+    pub occupied:  u8,
     pub threads:   Vec<Vec<HOp>>,
     pub schedule:  Schedule,
 }
@@ -373,18 +376,18 @@ impl Property for C14Handles {
             2 => Just(HOp::New), 1 => Just(HOp::NewClones), 2 => Just(HOp::NewUnique),
             4 => (0u8..4).prop_map(HOp::Clone), 1 => (0u8..4).prop_map(HOp::Bulk), 2 => (0u8..4).prop_map(HOp::IntoArc),
             2 => (0u8..4).prop_map(HOp::Deref), 6 => (0u8..4).prop_map(HOp::Drop), 3 => (0u8..4).prop_map(HOp::Give), 3 => Just(HOp::Take)];
-        (any::<bool>(), any::<bool>(), vec(vec(op, 1..=6), 2..=3))
-            .prop_flat_map(|(fs, shared_start, threads)| {
+        (any::<bool>(), any::<bool>(), prop_oneof![3 => Just(0u8), 1 => Just(5u8), 2 => Just(6u8), 2 => Just(7u8)], vec(vec(op, 1..=6), 2..=3))
+            .prop_flat_map(|(fs, shared_start, occupied, threads)| {
                 let n = threads.len();
                 let est = threads.iter().map(|t| t.len() as u32 * 8).sum::<u32>() + 8;
-                (Just((fs, shared_start)), Just(threads), schedule_strategy(n, est))
+                (Just((fs, shared_start, occupied)), Just(threads), schedule_strategy(n, est))
             })
-            .prop_map(|((fs, shared_start), threads, schedule)| HandleCase { free_list: if fs { FreeList::FullSync } else { FreeList::Atomic }, shared_start, threads, schedule })
+            .prop_map(|((fs, shared_start, occupied), threads, schedule)| HandleCase { free_list: if fs { FreeList::FullSync } else { FreeList::Atomic }, shared_start, occupied: if shared_start { occupied.min(6) } else { occupied }, threads, schedule })
             .boxed()
     }
     fn cases(&self, tier: Tier) -> u32 { match tier { Tier::Quick => 8_000, Tier::Thorough => 200_000 } }
     fn rule(&self) -> String {
-        "generated: pool allocator (atomic | full-sync free list, 8 slots) x 2..3 threads of 1..6 ops over {OgreArc::new_with, new_with_clones::<3>, OgreUnique::new, clone, increment_references(2)+2 raw copies, into_ogre_arc, deref+check, drop, hand a handle to the next thread, take handed-over handles} x optionally every thread starts with a clone of one shared value x schedule; values carry a destructor reporting to a ledger; \
+        "generated: pool allocator (atomic | full-sync free list, 8 slots of which the harness occupies 0 / 5 / 6 / 7 beforehand, so that new values re-use slots other threads have just released) x 2..3 threads of 1..6 ops over {OgreArc::new_with, new_with_clones::<3>, OgreUnique::new, clone, increment_references(2)+2 raw copies, into_ogre_arc, deref+check, drop, hand a handle to the next thread, take handed-over handles} x optionally every thread starts with a clone of one shared value x schedule; values carry a destructor reporting to a ledger; \
          oracle: every deref of a live handle yields the value written at creation (intact); when all threads are done references_count() of every value equals its number of live shared handles and no value with a live handle was destroyed; after the remaining handles are dropped every value was destroyed exactly once, no destructor ran on garbage, and all 8 pool slots can be allocated again; \
          non-trivial: a clone or a drop of a handle overlapped a drop of another handle to the same value (a thread was switched out inside such an operation while another thread held a handle to the same value)".into()
     }
@@ -418,6 +421,11 @@ impl Property for C14Handles {
         let problems: Arc<Mutex<Vec<String>>> = Arc::new(Mutex::new(vec![]));
         let created: Arc<Mutex<BTreeSet<u64>>> = Arc::new(Mutex::new(BTreeSet::new()));
         let mut start: Vec<Vec<Box<dyn Handle>>> = (0..n).map(|_| vec![]).collect();
+        let mut parked_slots: Vec<u32> = vec![];
+        for _ in 0..case.occupied.min(7) {
+            let r = if a_ptr != 0 { unsafe { &*(a_ptr as *const Alloc8) }.alloc_ref().map(|x| x.1) } else { unsafe { &*(f_ptr as *const FAlloc8) }.alloc_ref().map(|x| x.1) };
+            if let Some(id) = r { parked_slots.push(id); }
+        }
         if case.shared_start {
             let v = payload::plain(200, 1);
             created.lock().unwrap().insert(v);
@@ -475,9 +483,9 @@ impl Property for C14Handles {
             }));
         }
         let out = sched.execute(bodies);
-        let mut classes = vec![format!("free-list:{:?}", case.free_list)];
+        let mut classes = vec![format!("free-list:{:?}", case.free_list), format!("pool-slots-free:{}", 8 - case.occupied.min(7))];
         if case.shared_start { classes.push("shared-start".into()); }
-        let fp = { use std::hash::{Hash, Hasher}; let mut h = std::collections::hash_map::DefaultHasher::new(); format!("{:?}", (case.free_list, case.shared_start, &case.threads)).hash(&mut h); out.trace.hash(&mut h); h.finish() };
+        let fp = { use std::hash::{Hash, Hasher}; let mut h = std::collections::hash_map::DefaultHasher::new(); format!("{:?}", (case.free_list, case.shared_start, case.occupied, &case.threads)).hash(&mut h); out.trace.hash(&mut h); h.finish() };
         let summary = format!("{:?}", case.threads);
         let leak_all = |allocs: Allocs| { std::mem::forget(allocs); };
         match &out.end {
@@ -529,7 +537,7 @@ impl Property for C14Handles {
                 let r = if a_ptr != 0 { unsafe { &*(a_ptr as *const Alloc8) }.alloc_ref().map(|x| x.1) } else { unsafe { &*(f_ptr as *const FAlloc8) }.alloc_ref().map(|x| x.1) };
                 if let Some(id) = r { got += 1; keep.push(id); }
             }
-            if got != 8 { judged = Some((format!("{k}/slots-not-returned"), format!("after every handle was dropped {got} of 8 pool slots could be allocated; scripts {summary}"))); }
+            if got + parked_slots.len() != 8 { judged = Some((format!("{k}/slots-not-returned"), format!("after every handle was dropped {got} pool slots could be allocated ({} are held by the harness, the pool has 8); scripts {summary}", parked_slots.len()))); }
         }
         let _ = had_live;
         leak_all(allocs);
